@@ -443,20 +443,25 @@ Proof.
   intros s m H k. unfold listen in H. rewrite (dblocks_keys _ _ _ k H). cbn [keys map In]. unfold declared_apps. tauto.
 Qed.
 
-Lemma post_app_keys m k x : In x (keys (post_app m k)) <-> In x (keys m).
+Lemma post_app_keys m k m' x : post_app m k = Some m' -> (In x (keys m') <-> In x (keys m)).
 Proof.
-  unfold post_app. destruct (aget k m) as [a|] eqn:Hk; [|tauto].
+  unfold post_app. destruct (aget k m) as [a|] eqn:Hk; [|intros [= <-]; tauto].
   pose proof (aget_in_keys _ _ _ Hk) as Hin.
   match goal with |- context [aget k (aset k ?v m)] => rewrite (aget_aset_eq k v m) end.
-  rewrite !keys_aset. intuition congruence.
+  match goal with |- context [aget k (aset k ?v ?mm)] => rewrite (aget_aset_eq k v mm) end.
+  match goal with |- context [collect_app ?a] => destruct (collect_app a) as [[a3 bs]|] end; [|discriminate].
+  intros [= <-]. rewrite !keys_aset. intuition congruence.
 Qed.
-Lemma post_keys : forall l m x, In x (keys (fold_left post_app l m)) <-> In x (keys m).
-Proof. induction l as [|k r IH]; intros m x; cbn [fold_left]; [tauto|]. rewrite IH. apply post_app_keys. Qed.
+Lemma post_keys : forall l m m' x, fold_opt post_app l m = Some m' -> (In x (keys m') <-> In x (keys m)).
+Proof.
+  induction l as [|k r IH]; intros m m' x H; cbn [fold_opt] in H; [injection H as <-; tauto|].
+  destruct (post_app m k) as [m1|] eqn:H1; [|discriminate]. rewrite (IH _ _ x H). apply (post_app_keys _ _ _ x H1).
+Qed.
 
 Theorem apps_exact : forall s m, denote s = Some m -> forall k, In k (keys m) <-> In k (declared_apps s).
 Proof.
-  intros s m H k. unfold denote in H. destruct (listen s) as [m0|] eqn:Hl; [|discriminate]. injection H as <-.
-  unfold post. rewrite post_keys. apply listen_apps_exact, Hl.
+  intros s m H k. unfold denote in H. destruct (listen s) as [m0|] eqn:Hl; [|discriminate].
+  unfold post in H. rewrite (post_keys _ _ _ k H). apply listen_apps_exact, Hl.
 Qed.
 
 Example apps_exact_nonvacuous :
@@ -608,6 +613,7 @@ Proof.
     rewrite <- H1. cbn [In]. unfold types_of at 1. destruct (String.eqb_spec (app_key a) k) as [<-|Hne].
     + rewrite aget_aset_eq. unfold types_of. destruct (aget (app_key a) m1); cbn; tauto.
     + rewrite (aget_aset_ne _ _ _ _ Hne). fold (types_of m1 k). tauto.
+  - eapply upd_types; [exact H|]. intros a0 a' _ [= <-]. apply same_types_extra. unfold dcollector. destruct entries; reflexivity.
 Qed.
 
 Lemma dmembers_types ap k0 : forall ms m m', dmembers ap k0 m ms = Some m' ->
